@@ -227,7 +227,7 @@ func huntScenario(e *mavlh.Eng, r *gen.Rand, cfg mavlh.Cfg, kg *mavlh.KeyGen, ba
 }
 
 func hunt(e *mavlh.Eng, r *gen.Rand) {
-	n := gen.Scale(24, 1500)
+	n := gen.Scale(24, 1000)
 	for i := 0; i < n; i++ {
 		cfg := mavlh.CfgFromInt(r.Intn(32))
 		if r.Chance(2, 3) {
@@ -287,7 +287,7 @@ func main() {
 		hunt(e, r)
 		return
 	}
-	n := gen.Scale(14, 300)
+	n := gen.Scale(14, 200)
 	for i := 0; i < n; i++ {
 		history(e, r)
 	}
